@@ -65,6 +65,10 @@ def run(ctx: Ctx) -> None:
 
 
 KNOCKOUTS = [
+    Knockout("compile-tests-the-class-for-instance", "graphiq/backends/compiler_base.py",
+             sub_once("            is_controlled_op = isinstance(\n                op, ops.ControlledPairOperationBase\n            ) or isinstance(op, ops.ClassicalControlledPairOperationBase)",
+                      "            kind = type(op)\n            is_controlled_op = isinstance(\n                kind, ops.ControlledPairOperationBase\n            ) or isinstance(kind, ops.ClassicalControlledPairOperationBase)"),
+             "type.isinstance-on-class", "CompilerBase.compile"),
     Knockout("pauli-error-y-applies-z-on-dm", NM, sub_once('                error_op = dmf.get_one_qubit_gate(n_quantum, reg_list[0], dmf.sigmay())', '                error_op = dmf.get_one_qubit_gate(n_quantum, reg_list[0], dmf.sigmaz())'), "noise.pauli-tags", "tag Y applies"),
     Knockout("pauli-error-tag-test-inverted", NM, sub_once('            if pauli_error == "X":\n                state_rep.apply_sigmax(reg_list[0])', '            if pauli_error != "X":\n                state_rep.apply_sigmax(reg_list[0])'), "noise.pauli-tags", "tag"),
     Knockout("placement-both-after-or", CBASE, sub_once("                        if after_control and after_target:", "                        if after_control or after_target:"), "noise.placement", "noise must be applied once"),
